@@ -278,6 +278,7 @@ def body_power_tally(env):
             def calculate(self, dz_, pow_j, t_gap, h_gap, adiabatic, ebal):
                 got['dz'] = dz_
                 got['pow'] = pow_j
+                got['gap'] = (t_gap, h_gap, adiabatic, ebal)
 
             def calculate_pressure_drop(self, z, dz_):
                 pass
@@ -285,7 +286,10 @@ def body_power_tally(env):
         old = {k: env.nonneg('delivered_' + k, hi=1e9) for k in ('pins', 'duct', 'cool', 'refl')}
         a = StubSelf(_bind=(am.Assembly, ['calculate']), power=pw, _z=0.0, _power_delivered=dict(old), active_region=Reg(),
                      _update_peak_coolant_temps=lambda: None, _update_peak_duct_temps=lambda: None, z=0.0)
-        a.calculate(dz, None, None)
+        tg, hg = object(), object()
+        a.calculate(dz, tg, hg, adiabatic=True, ebal=True)
+        env.holds('the region receives the gap temperature, the gap film coefficient and the adiabatic / energy-balance options it was given',
+                  got['gap'][0] is tg and got['gap'][1] is hg and got['gap'][2] is True and got['gap'][3] is True)
         env.eq('pins tally', a._power_delivered['pins'], old['pins'] + dz * _sum(qp), tol=1e-9)
         env.eq('duct tally', a._power_delivered['duct'], old['duct'] + dz * _sum(qd), tol=1e-9)
         env.eq('coolant tally', a._power_delivered['cool'], old['cool'] + dz * _sum(qc), tol=1e-9)
